@@ -155,7 +155,14 @@ func dimUnits(family string, n int) []sweepUnit {
 
 // ------------------------------------------------------------------ key length
 
-var keyKinds = []string{"ascii", "multibyte", "esc-wrapped", "esc-inside"}
+var keyKinds = []string{"ascii", "multibyte", "esc-wrapped", "esc-inside", "invalid-utf8"}
+
+// invalidBytes: the undecodable byte of every third position of an
+// "invalid-utf8" sweep key: Latin-1 letters/signs that are lone continuation
+// bytes (0xB0, 0x80, 0xA0), lone lead bytes of 2-, 3-, 4-byte sequences (0xE9 is
+// also Latin-1 e acute), 0xFF. The byte after it is always ASCII, so each of
+// them is undecodable on its own: one column each.
+var invalidBytes = []byte{0xb0, 0xe9, 0xff, 0x80, 0xc3, 0xf0, 0xa0}
 
 // sweepKey: a key of n visible runes.
 func sweepKey(kind string, n int) string {
@@ -170,6 +177,8 @@ func sweepKey(kind string, n int) string {
 		}
 		if kind == "multibyte" {
 			sb.WriteRune(multi[i%len(multi)])
+		} else if kind == "invalid-utf8" && i%3 == 1 {
+			sb.WriteByte(invalidBytes[(i/3)%len(invalidBytes)])
 		} else {
 			sb.WriteByte(byte('a' + i%26))
 		}
